@@ -355,6 +355,9 @@ type Node struct {
 	// InPay is invoked (if set) inside SendPayment after the payment was recorded
 	// and before the call returns — an "in flight" observation point.
 	InPay func(hash string)
+	// InPayNotFound: status lookups made while a pay call for the hash is executing are
+	// answered "payment not found" instead of "pending"
+	InPayNotFound bool
 	inPay map[string]bool
 	// FailCreateInvoice makes CreateInvoice return an error.
 	FailCreateInvoice bool
@@ -552,8 +555,14 @@ func (n *Node) OutgoingPaymentStatus(ctx context.Context, hash string) (res ligh
 	err = n.H.Do("ln", "OutgoingPaymentStatus", s8(hash), false, func() error {
 		n.mu.Lock()
 		if n.inPay[hash] {
-			// lookup made while the pay call is still executing: in flight, does not consume the script
+			// lookup made while the pay call is still executing; it does not consume the script.
+			// A node that has registered the payment says "in flight"; one the call has not
+			// reached yet says "not found" (InPayNotFound)
+			nf := n.InPayNotFound
 			n.mu.Unlock()
+			if nf {
+				return lightning.OutgoingPaymentNotFound
+			}
 			res = lightning.PaymentStatus{PaymentStatus: lightning.Pending}
 			return nil
 		}
